@@ -391,6 +391,7 @@ func runWallet(r *ev.Run, base string, ws walletSpec) {
 				var err error
 				rec, p := ev.Guard(func() { acc, err = g.f() })
 				r.Eval()
+				r.Class("roundtrip_checked/" + a.variant)
 				switch {
 				case p:
 					r.Violation(kp+":own-password:panic:"+g.name, det(ws, a, map[string]any{"panic": fmt.Sprint(rec)}))
@@ -451,6 +452,7 @@ func runWallet(r *ev.Run, base string, ws walletSpec) {
 			var err error
 			rec, p := ev.Guard(func() { acc, err = get() })
 			r.Eval()
+			r.Class("other_password_checked")
 			if p {
 				r.Violation(kp+":other-password:panic", det(ws, a, map[string]any{"other": o.name, "other_hex": hex.EncodeToString(o.pw), "panic": fmt.Sprint(rec)}))
 				continue
@@ -474,6 +476,7 @@ func runWallet(r *ev.Run, base string, ws walletSpec) {
 		switch idx {
 		case 1: // ChangePassword: wrong old password refused and harmless; right one re-protects and is saved
 			newPw := append(append([]byte{}, a.pw...), []byte("-new")...)
+			r.Class("changepassword_checked")
 			if err := cli.ChangePassword(m.addr, wrong, newPw); err == nil {
 				r.Violation(kp+":ChangePassword-with-wrong-old-password-accepted", det(ws, a, nil))
 			}
@@ -495,6 +498,7 @@ func runWallet(r *ev.Run, base string, ws walletSpec) {
 			cli = c3
 			m.spec.pw = newPw
 		case 2: // UnLockAccount must not let another password in
+			r.Class("unlock_checked")
 			if err := cli.UnLockAccount(m.addr, 3600, wrong); err == nil {
 				r.Violation(kp+":UnLockAccount-with-other-password-accepted", det(ws, a, nil))
 			}
@@ -528,8 +532,9 @@ func main() {
 	polyenv.Setup(0, polyenv.Keys(1))
 	base := polyenv.TmpDir("c43-")
 	defer os.RemoveAll(base)
-	r.Require("roundtrip_ok", "roundtrip_ok/create", "roundtrip_ok/import-meta", "roundtrip_ok/import-ext", "other_password_refused",
-		"changepassword_ok", "unlock_sequence_ok", "create_empty_password_refused")
+	// vacuity classes are counted on the attempt (reference) side: a failed attempt is a violation, not a vacuous run
+	r.Require("roundtrip_checked/create", "roundtrip_checked/import-meta", "roundtrip_checked/import-ext", "other_password_checked",
+		"changepassword_checked", "unlock_checked", "create_empty_password_refused")
 
 	sch := schemes(r.Thorough())
 	var flat []struct {
